@@ -115,11 +115,18 @@ Definition torch_cat_shape (ss : list (list Z)) (dim : Z) : option (list Z) :=
              else None)
          end
   end.
+Fixpoint shape_eqb (a b : list Z) : bool :=
+  match a, b with
+  | [], [] => true
+  | x :: a', y :: b' => (x =? y) && shape_eqb a' b'
+  | _, _ => false
+  end.
+(* stack: all tensors of one shape; the new axis may be placed at any of rank + 1 positions *)
 Definition torch_stack_shape (ss : list (list Z)) (dim : Z) : option (list Z) :=
   match ss with
   | [] => None
   | s0 :: rest =>
-    if forallb (fun s => (zlen s =? zlen s0) && forallb (fun i => match nthZ s i, nthZ s0 i with Some x, Some y => x =? y | _, _ => false end) (iota (zlen s0))) rest
+    if forallb (fun s => shape_eqb s s0) rest
     then obind (wrap_dim (zlen s0 + 1) dim) (fun d => Some (take d s0 ++ zlen ss :: drop d s0))
     else None
   end.
